@@ -1,1 +1,66 @@
 //! Verification hooks (`--cfg rustrtc_verif` only): media.
+//!
+//! H4 — yield points. `verif_yield(point)` is called immediately BEFORE each shared-memory
+//! access of `SpscRing::{push,pop,is_empty}` and of the `SampleStreamSource` /
+//! `SampleStreamTrack` producer, consumer, clone, drop and stop paths. It does nothing unless the
+//! calling thread has installed a scheduler callback with `install_scheduler`, in which case the
+//! callback is invoked (and typically blocks until an external controller lets the thread
+//! continue). This lets a harness execute one exact interleaving of the real code.
+use std::cell::RefCell;
+
+/// Yield-point identifiers (the access that FOLLOWS the yield).
+pub mod point {
+    pub const PUSH_LOAD_TAIL: u32 = 1;
+    pub const PUSH_LOAD_HEAD: u32 = 2;
+    pub const PUSH_WRITE_SLOT: u32 = 3;
+    pub const PUSH_STORE_TAIL: u32 = 4;
+    pub const POP_LOAD_HEAD: u32 = 5;
+    pub const POP_LOAD_TAIL: u32 = 6;
+    pub const POP_READ_SLOT: u32 = 7;
+    pub const POP_STORE_HEAD: u32 = 8;
+    pub const IS_EMPTY: u32 = 9;
+    pub const SRC_LOCK_PUSH: u32 = 20;
+    pub const SRC_LOAD_CLOSED: u32 = 21;
+    pub const SRC_TRYLOCK_POP: u32 = 22;
+    pub const SRC_NOTIFY_ONE: u32 = 23;
+    pub const DROP_FETCH_SUB: u32 = 30;
+    pub const DROP_STORE_CLOSED: u32 = 31;
+    pub const DROP_NOTIFY_WAITERS: u32 = 32;
+    pub const CLONE_FETCH_ADD: u32 = 33;
+    pub const RECV_LOAD_ENDED: u32 = 40;
+    pub const RECV_LOCK_POP: u32 = 41;
+    pub const RECV_LOAD_CLOSED: u32 = 42;
+    pub const RECV_STORE_ENDED: u32 = 43;
+    pub const RECV_AWAIT: u32 = 44;
+    pub const RECV_LOAD_CLOSED2: u32 = 45;
+    pub const RECV_STORE_ENDED2: u32 = 46;
+    pub const RECV_NEW_NOTIFIED: u32 = 47;
+    pub const STOP_STORE_ENDED: u32 = 50;
+    pub const STOP_NOTIFY_WAITERS: u32 = 51;
+}
+
+thread_local! {
+    static SCHED: RefCell<Option<Box<dyn FnMut(u32)>>> = const { RefCell::new(None) };
+}
+
+/// Install the calling thread's scheduler callback.
+pub fn install_scheduler(f: Box<dyn FnMut(u32)>) {
+    SCHED.with(|s| *s.borrow_mut() = Some(f));
+}
+
+/// Remove the calling thread's scheduler callback.
+pub fn remove_scheduler() {
+    let _ = SCHED.try_with(|s| *s.borrow_mut() = None);
+}
+
+/// No-op unless the calling thread installed a scheduler.
+#[inline]
+pub fn verif_yield(point: u32) {
+    let _ = SCHED.try_with(|s| {
+        if let Ok(mut g) = s.try_borrow_mut() {
+            if let Some(f) = g.as_mut() {
+                f(point);
+            }
+        }
+    });
+}
